@@ -1,4 +1,4 @@
 CONSTANTS SegMax = 127  NodeId = 1  Part = 0  NParts = 1
-CONSTANT Dict <- MCDict  Scens <- ScenDlQ
+CONSTANT Dict <- MCDict  Scens <- Sc_C02_scen  PreObj <- MCPreObj
 INIT Init
 NEXT Next
